@@ -230,7 +230,17 @@ func DependsOnCall(v ssa.Value, obj interface{ Name() string }, args func([]ssa.
 			if co := CalleeOf(x); co != nil && co.Name() == obj.Name() {
 				return args(x.Call.Args)
 			}
+			// a value computed by another call from the result (bytes.Replace(line, ...), []byte(line), ...)
+			for _, a := range x.Call.Args {
+				if rec(a, d+1) {
+					return true
+				}
+			}
 			return false
+		case *ssa.BinOp:
+			return rec(x.X, d+1) || rec(x.Y, d+1)
+		case *ssa.Slice:
+			return rec(x.X, d+1)
 		case *ssa.Extract:
 			return rec(x.Tuple, d+1)
 		case *ssa.Convert:
